@@ -5,6 +5,7 @@ package c03
 import (
 	"bytes"
 	"context"
+	"errors"
 	"encoding/hex"
 	"fmt"
 	"os"
@@ -87,6 +88,22 @@ func (e *env) build(keys *accountdata.AccountKeys, log rawLog, k lkind) (list.Ac
 	e.c.Count("executions", 1)
 	l, err := list.BuildAclListWithIdentity(keys, st, e.verifier(k))
 	return l, st, err
+}
+
+// refusing wraps a storage: while armed, the next AddAll is refused with an error and nothing is written.
+type refusing struct {
+	list.Storage
+	armed bool
+}
+
+var errRefused = errors.New("c03: storage refused the write")
+
+func (r *refusing) AddAll(ctx context.Context, recs []list.StorageRecord) error {
+	if r.armed {
+		r.armed = false
+		return errRefused
+	}
+	return r.Storage.AddAll(ctx, recs)
 }
 
 // ---- projection ------------------------------------------------------------------------------------------------
@@ -405,6 +422,57 @@ func (e *env) modes(c *cmp) (ok bool) {
 			}
 			note(c.check("m3-non-validating-one-by-one", i+1, l))
 		}
+	}
+	// (m6) every record is first offered while the storage refuses the write: the record was not accepted, so the list
+	// must be exactly as before (state, heads, what it serves), and the same record offered again must be accepted
+	for _, k := range []lkind{V, N} {
+		if k == N && e.c.Quick() && c.o.class != "node" {
+			continue
+		}
+		mode := "m6-refused-write-then-retry/" + k.String()
+		inner, err := list.NewInMemoryStorage(H[0].Id, H[:1])
+		if err != nil {
+			c.errf(mode, 1, err)
+			ok = false
+			continue
+		}
+		st := &refusing{Storage: inner}
+		e.c.Count("executions", 1)
+		l, err := list.BuildAclListWithIdentity(keys, st, e.verifier(k))
+		if err != nil {
+			c.errf(mode, 1, err)
+			ok = false
+			continue
+		}
+		for i := 1; i < n; i++ {
+			st.armed = true
+			err := l.AddRawRecord(H[i])
+			if err == nil || st.armed {
+				c.fail(mode, "refused-write-not-reported", fmt.Sprintf("at prefix %d: AddRawRecord returned %v although the storage refused the write (write attempted: %v)", i, err, !st.armed))
+				ok = false
+				break
+			}
+			e.c.Count("n_refused_writes", 1)
+			note(c.check(mode+":after-refusal", i, l))
+			if l.HasHead(H[i].Id) {
+				c.fail(mode, "refused-record-known", fmt.Sprintf("at prefix %d: HasHead(%s) is true for a record the storage refused", i, H[i].Id))
+				ok = false
+			}
+			if recs, err := l.RecordsAfter(ctx, H[i].Id); err == nil {
+				c.fail(mode, "refused-record-served-from", fmt.Sprintf("at prefix %d: RecordsAfter(refused record) serves %d records instead of failing", i, len(recs)))
+				ok = false
+			}
+			if err := l.AddRawRecords(rawLog{H[i]}); err != nil {
+				c.errf(mode+":retry", i+1, err)
+				ok = false
+				break
+			}
+			if !c.check(mode+":retry", i+1, l) {
+				ok = false
+				break
+			}
+		}
+		note(e.dumpEquals(c, mode, inner, H))
 	}
 	for _, k := range []lkind{V, N} {
 		tag := "/" + k.String()
